@@ -164,6 +164,20 @@ def probe(ctx, cal, m, cfg, ns, stride, rng, sb, light=False):
         if st != 'ok' or list(got) != exp:
             ctx.fail('drange_1b', "cal.drange(%s, %s, '1b') = %s..., model %s...; cfg=%s" % (a, b, got[:6] if st == 'ok' else got, exp[:6], _brief(cfg)))
             return False
+    # the start given as a bump: 'the business days since N business days before t1' (documented spelling of Calendar.drange)
+    for _ in range(0 if light else 6):
+        b_ = rng.choice(days)
+        N = rng.choice([1, 2, 3, 5, 8, 13])
+        i1 = m.idx[m.adjust(b_, adj)]
+        if i1 - N < 0:
+            continue
+        sb.reset()
+        mon['drange_1b'] += 1
+        st, got = ctx.call(cal.drange, '-%db' % N, b_, '1b')
+        exp = m.bd[i1 - N:i1 + 1]
+        if st != 'ok' or list(got) != exp:
+            ctx.fail('drange_1b', "cal.drange('-%db', %s, '1b') = %s..., model (the %d business days before adjust(t1) up to it) %s...; cfg=%s" % (N, b_, got[:8] if st == 'ok' else got, N, exp[:8], _brief(cfg)))
+            return False
     # the edges of the range: the n-th business day may lie outside what the calendar knows - refusing is fine, a day on the wrong side of t is not
     if not light and len(m.bd) > 60:
         for i in (0, 1, 3, 7, len(m.bd) - 1, len(m.bd) - 2, len(m.bd) - 5):
@@ -314,6 +328,11 @@ def gen_cfg(rng):
             d += DAY
         hol.add(d); hol.add(d + DAY * 3)   # friday + monday around a weekend
     hol = sorted(h for h in hol if t0 <= h <= t1)
+    order = rng.random()
+    if order < 0.15:
+        hol = hol[::-1]                    # a newest-first holiday table
+    elif order < 0.3:
+        rng.shuffle(hol)                   # holidays in no particular order (grouped by name, built from a set, ...)
     return {'t0': t0.isoformat(), 't1': t1.isoformat(), 'weekend': weekend, 'holidays': [h.isoformat() for h in hol], 'adj': rng.choice(['f', 'p', 'm', 'm'])}, crosses
 
 
